@@ -10,7 +10,10 @@ use rsdns::verif_hooks as vh;
 use std::hash::{Hash, Hasher};
 use std::str::FromStr;
 
-/// records the exact byte sequence fed by `Hash::hash`
+/// records the exact byte sequence fed by `Hash::hash` — and its call structure: `Hasher` does not
+/// promise that one `write(&[a, b])` hashes like `write_u8(a); write_u8(b)` (word-at-a-time hashers
+/// such as FxHasher do differ), so "equal names hash alike" needs equal call sequences. A `write` of
+/// anything but one byte is recorded with the marker `ff fe` (bytes no name contains) in front.
 #[derive(Default)]
 struct Recorder(Vec<u8>);
 impl Hasher for Recorder {
@@ -18,6 +21,9 @@ impl Hasher for Recorder {
         0
     }
     fn write(&mut self, bytes: &[u8]) {
+        if bytes.len() != 1 {
+            self.0.extend_from_slice(&[0xff, 0xfe]);
+        }
         self.0.extend_from_slice(bytes);
     }
 }
